@@ -68,14 +68,17 @@ def gen_submission(qsrc, data):
         flags[nm] = int(one(r'HEADER_HAS_%s\s*=\s*(0x[0-9a-fA-F]+|\d+)' % nm, data, 'data.c: HEADER_HAS_' + nm), 0)
     if [flags['DATE'], flags['FROM'], flags['MSGID']] != [1, 2, 4]:
         raise TranslateError('data.c: HEADER_HAS_DATE/FROM/MSGID are not 1, 2, 4: %r' % flags)
-    m = re.search(r'\n\tif\s*\(submission_mode\)\s*\{(.*?)\n\t\}\s*else\s+if\s*\(xmitstat\.check2822\s*&\s*1\)\s*\{', data, flags=re.S)
+    # the block that writes the additions: the first `if (... submission_mode ...) {` of smtp_data behind the header loop, up to
+    # its `} else if`.  Which condition guards which field is NOT taken from here (the model is a hand transcription, the
+    # whole-program comparison judges it); only the literal pieces are, in the order of the three inner blocks.
+    m = re.search(r'\n\tif\s*\([^\n{]*submission_mode[^\n{]*\)\s*\{(.*?)\n\t\}\s*else\s+if\s*\(', data, flags=re.S)
     if not m:
-        raise TranslateError('data.c: block `if (submission_mode) { ... } else if (xmitstat.check2822 & 1) {` not found in smtp_data')
+        raise TranslateError('data.c: block `if (submission_mode) { ... } else if (` not found in smtp_data')
     blk = m.group(1)
-    parts = re.split(r'if\s*\(\s*!\s*\(\s*headerflags\s*&\s*HEADER_HAS_(\w+)\s*\)\s*\)\s*\{', blk)
-    order = parts[1::2]
-    if order != ['DATE', 'FROM', 'MSGID']:
-        raise TranslateError('data.c: submission additions are not guarded by !(headerflags & HEADER_HAS_DATE / FROM / MSGID) in this order: %r' % order)
+    parts = re.split(r'\n\t\tif\s*\(([^\n{]*)\)\s*\{', blk)
+    if len(parts) != 7:
+        raise TranslateError('data.c: expected three inner blocks (Date, From, Message-Id) in the submission block, found %d' % (len(parts) // 2))
+    order = ['DATE', 'FROM', 'MSGID']
     lits = {}
     for nm, body in zip(order, parts[2::2]):
         # the pieces of this field: up to the closing brace of the if block (tab-indented by two)
